@@ -403,3 +403,81 @@ _obligations_c14b = obligations
 
 def obligations(ctx, cfg):
     return _obligations_c14b(ctx, cfg) + [PushLoopIteration(ctx)]
+
+
+class PushStopsOnDelete(Obligation):
+    id = 'C14.g-push-stops-on-delete'
+    tier = 'T3'
+    desc = ('pull_and_dispatch_messages suspended in the middle of a round (an HTTP exchange or a mailbox answer outstanding); the subscription is deleted: '
+            'the round ends and no POST is started afterwards - also not by a task the round left running')
+    bounds = {'page': '<= 2 deliveries', 'suspension': 'one leaf future pends once', 'select! start index': 0}
+    unroll = 6
+    max_paths = 20000
+
+    def __init__(self, ctx):
+        install_tokens(ctx)
+
+    def body(self, ip, p):
+        ctx = ip.ctx
+        from framework import responder_of
+        from models_async import poll_future, JoinHandleM
+        sub = p.fresh('sub_tok')
+        toks = [p.fresh('msg%d_tok' % i) for i in range(2)]
+        acks = [p.fresh('ack%d' % i) for i in range(2)]
+        p.assume(z3.And(acks[0] >= 1, acks[1] >= 1, acks[0] != acks[1], acks[0] < (1 << 63), acks[1] < (1 << 63)))
+        n = p.fresh('page_len')
+        p.assume(z3.And(n >= 1, n <= 2))
+        page = Seq([pulled(ctx, toks[i], acks[i], z3.Int('EPOCH'), z3.IntVal(1)) for i in range(2)], n, 'vec')
+        ev = ctx.src.enum_variants('SubscriptionRequest')
+
+        def on_enqueue(ip_, sender, req):
+            if ev[req.discr][0] == 'PullMessages' and sender.kind == 'subscription':
+                tx = responder_of(req)
+                replies = getattr(p, 'replies', {})
+                replies[tx.cid] = ok(page)
+                p.replies = replies
+                return
+            default_reply(ip_, sender, req)
+        ctx.on_enqueue = on_enqueue
+        p.select_in_order = True
+        p.timers_never_fire = True
+        p.phase = 'A'
+        cfgv = mk(ctx, 'PushConfig', 'subscriptions/subscription', endpoint=StrTok(p.fresh('endpoint')), oidc_token=Enum('Option', 0, {}), attributes=Enum('Option', 0, {}))
+        coro = run_to_end(ip.call_fn(ctx.free_fn('pull_and_dispatch_messages'), [ArcTok(sub, 'Subscription'), cfgv, Opaque('reqwest::Client')]))
+        cell = Cell(coro, 'round')
+        p.pending_budget = 1
+        r = run_to_end(poll_future(ip, Loc(cell)))
+        if r.discr == 0:
+            raise Infeasible()          # the round was never suspended: nothing to delete under
+        mark = len(p.log)
+        p.phase = 'B'                   # the subscription is deleted: its deletion signal is resolved from now on
+        p.pending_budget = 0
+        done = False
+        for _ in range(6):
+            r = run_to_end(poll_future(ip, Loc(cell)))
+            if r.discr == 0:
+                done = True
+                break
+        # whatever the round left running keeps being polled by the runtime
+        for h in getattr(p, 'spawned_handles', []):
+            if h.out is None:
+                for _ in range(8):
+                    rr = run_to_end(poll_future(ip, Loc(Cell(h, 'detached'))))
+                    if rr.discr == 0:
+                        break
+        return {'done': done, 'mark': mark, 'log': list(p.log)}
+
+    def post(self, ip, p, res):
+        after = [e for e in res['log'][res['mark']:] if e[0] == 'http.send']
+        before = [e for e in res['log'][:res['mark']] if e[0] == 'http.send']
+        return [Claim('the round ends once the subscription is deleted', res['done']),
+                Claim('no POST is started after the deletion', len(after) == 0),
+                Cover('deleted while a POST was outstanding', len(before) >= 1),
+                Cover('deleted before the first POST', len(before) == 0)]
+
+
+_obligations_c14c = obligations
+
+
+def obligations(ctx, cfg):
+    return _obligations_c14c(ctx, cfg) + [PushStopsOnDelete(ctx)]
